@@ -113,7 +113,10 @@ Definition obs_flood (args : list Z) : str :=
   let lens := repeat 30 n in
   let '(s, t) := send_flood true (sys0 (mkR 0 0 0)) 0 0 0 lens in
   bs "F=" ++ show_nat (length (wire_events s)) ++ bs "/" ++ show_Z t ++ bs "/" ++
-  (if forallb (fun p => N.eqb (ev_id (fst p)) (N.of_nat (snd p))) (combine (wire_events s) (seq 0 n)) then bs "ordered" else bs "reordered").
+  (if forallb (fun p => N.eqb (ev_id (fst p)) (N.of_nat (snd p))) (combine (wire_events s) (seq 0 n)) then bs "ordered" else bs "reordered") ++
+  (* a Send that is split into pieces (1x .. 6x MaxEventLength): still no rate call *)
+  (let '(s2, t2) := send_flood true s t 0 (N.of_nat n) [400; 400; 400; 400; 400; 400; 120] in
+   bs "/rated" ++ (if (wd (rs s2) =? wd (rs s)) && (lastr (rs s2) =? lastr (rs s)) && (t2 =? t) then bs "0" else bs "1")).
 
 Definition obs_keepalive : str :=
   let e1 := mkE 9 0 160 in
